@@ -8,7 +8,7 @@ check('C22', title='Heartbeat and test-request supervision follows the protocol'
       technique='explicit-state breadth-first search over virtual timelines (waits, ticks, inbound and outbound traffic) on the real Session in the coroutine process model (real FIXReader and FIXWriter), reference supervisor checked at every step',
       design_ref='DESIGN.md §3 C22',
       text='For each heartbeat interval H and both roles every history up to the depth bound over {wait d seconds then tick for d in {1, H-1, H, floor(1.2H), floor(1.2H)+1}, inbound Heartbeat, inbound '
-           'TestRequest (two ids), inbound application message, outbound send} runs on a real Session whose inbound bytes pass the real reader (which stamps the receive time). A reference supervisor '
+           'TestRequest (two ids), inbound application message, inbound application message two numbers ahead of sequence (puts the session into resend_request_sent), outbound send} runs on a real Session whose inbound bytes pass the real reader (which stamps the receive time). A reference supervisor '
            '(last sent, last received or TestRequest sent, pending flag) says for every tick whether a Heartbeat, a TestRequest, a Logout with termination or nothing must appear; TestRequests must be '
            'answered with the same TestReqID and a Heartbeat must clear a pending TestRequest.',
       level_note='Whole-second timelines (the library ticks once a second), so "more than H plus 20 percent" and the integer arithmetic of the code coincide: no unconstrained band is needed.',
